@@ -29,6 +29,7 @@ def shards(tier, seed):
         for i in range(16):
             out.append({"kind": "lattice", "names": names[i::16], "all": names})
     out.append({"kind": "bulk", "seed": seed, "n": z["bulk"]})
+    out.append({"kind": "flags", "seed": seed, "n": 90 if tier == "quick" else 900})
     return out
 
 
@@ -132,6 +133,40 @@ def work(shard, rec):
                 judge_verdict(case, obs, rec)
     elif shard["kind"] == "bulk":
         bulk(shard, rec, lib)
+    elif shard["kind"] == "flags":
+        flags(shard, rec, lib)
+
+
+def flags(shard, rec, lib):
+    """The verdict is a property of every make_readable call, also when a preview or a report is asked for."""
+    import contextlib
+    import io
+    import os
+    import tempfile
+    d = os.path.join(os.environ.get("CMV_SCRATCH", tempfile.gettempdir()), "c01-flags")
+    os.makedirs(d, exist_ok=True)
+    os.chdir(d)
+    rnd = G.rng("c01flags", shard["seed"])
+    for i in range(shard["n"]):
+        large, vr, mode = bool(i & 1), i % 3 != 0, i % 3
+        g = G.below(rnd, large, vr, lo=0.5) if i % 4 else G.near_threshold(rnd)
+        if not g:
+            continue
+        t, b = tuple(g[0]), tuple(g[1])
+        tk, tsp = rnd.choice(SP.available(t))
+        bk, bsp = rnd.choice(SP.available(b))
+        show, save = [(True, False), (False, True), (True, True)][i % 3]
+        case = {"text": SP.jsonable(tsp), "bg": SP.jsonable(bsp), "tk": tk, "bk": bk, "t": list(t), "b": list(b), "cfgs": [[mode, large, vr]], "show": show, "save": save}
+        rec.ev()
+        try:
+            with contextlib.redirect_stdout(io.StringIO()), contextlib.redirect_stderr(io.StringIO()):
+                out = lib.ColorPair(tsp, bsp, large_text=large).make_readable(mode=mode, very_readable=vr, show=show, save_report=save)
+        except Exception as e:
+            rec.count(f"flags_call_raised:{type(e).__name__}(C17)")
+            continue
+        rec.count("flag_verdicts_judged")
+        obs = {"res": {(mode, large, vr): out}, "orig": t, "bgi": b, "bg_rgb": b, "skip": None}
+        judge_verdict(case, obs, rec)
 
 
 def bulk(shard, rec, lib):
